@@ -221,9 +221,7 @@ extern "C" int harness_main() {
     verif_assert(ok_count, "C08.tss_no_loss_no_duplication");
     verif_assert(ok_evals, "C08.tss_reader_evaluated_exactly_on_ticks_and_deliveries");
     verif_assert(ok_cycles, "C08.tss_cycles_exactly_ticks_and_deliveries");
-    // fails on the unchanged tree (known finding F1); `tolerate` is a free symbolic bool: the failure is reported with
-    // tolerate = 0 (replays natively) and the path continues with tolerate = 1
-    verif_assert(ok_empty | verif_sbool("tolerate"), "C08.tss_empty_delta_tick_delivered");
+    verif_assert(ok_empty, "C08.tss_empty_delta_tick_delivered");  // fails on the unchanged tree: known finding F1
     if (back_to_back) verif_reach("tss_back_to_back_writes");
     if (removal_delivered) verif_reach("tss_removal_delivered");
     if (g_nrd >= 2) verif_reach("tss_two_deliveries");
